@@ -625,7 +625,7 @@ fn program_from_json(v: &Value) -> (Program, usize) {
 
 const BLOCK: u64 = 8000;
 fn cases(tier: Tier) -> u64 {
-    tier.pick(200_000, 4_000_000)
+    tier.pick(800_000, 4_000_000)
 }
 
 impl Property for C04P {
